@@ -385,6 +385,9 @@ inductive Input
   | responseDone (f : InFut)
   /-- ghost: the responder of substream `sid` writes a complete response. -/
   | responderWrites (sid : Sid) (response : Payload)
+  /-- `try_send_request` / `try_send_request_with_fallback` with a full command channel: the handle
+  has taken an id from the shared counter, the command is not delivered (`Error::ChannelClogged`). -/
+  | clogged
 
 def step (s : State) : Input → State
   | .send peer request opts dialAns openAns =>
@@ -400,6 +403,7 @@ def step (s : State) : Input → State
   | .inboundRead f request => onInboundRequest s f request
   | .responseDone f => onResponseDone s f
   | .responderWrites sid response => { s with wire := s.wire ++ [(sid, response)] }
+  | .clogged => { s with nextRid := s.nextRid + 1 }
 
 /-- What the environment may do in state `s` (the hypotheses of all theorems):
 * substream ids handed out by `open_substream` are fresh (shared `fetch_add` counter): not the id
